@@ -701,7 +701,7 @@ func r03HalfOpenTables(c *core.Ctx) {
 		// quadrants are adjacent iff they differ in exactly one bit
 		{
 			okAdj, whyAdj := true, ""
-			ax, ay, adj := c.P.Funcs["pointindex.adjacentQuadrantX"], c.P.Funcs["pointindex.adjacentQuadrantY"], c.P.Funcs["pointindex.quadrantsAreAdjacent"]
+			ax, ay, adj := c.P.Lookup("pointindex.adjacentQuadrantX"), c.P.Lookup("pointindex.adjacentQuadrantY"), c.P.Lookup("pointindex.quadrantsAreAdjacent")
 			if ax == nil || ay == nil || adj == nil || ax.SSA == nil || ay.SSA == nil || adj.SSA == nil {
 				okAdj, whyAdj = false, "adjacentQuadrantX / adjacentQuadrantY / quadrantsAreAdjacent not found"
 			} else {
@@ -762,6 +762,16 @@ func r03HalfOpenTables(c *core.Ctx) {
 				for k := int64(0); k < 4; k++ {
 					env := newSymEnv(c.P, ginfo)
 					env.vars[px], env.vars[py], env.vars[loopVar] = pSym("PX"), pSym("PY"), pInt(k)
+					// helpers bound to local function literals before the loop
+					for _, st := range gz.Decl.Body.List {
+						if as, ok := st.(*ast.AssignStmt); ok && len(as.Lhs) == len(as.Rhs) {
+							for i := range as.Rhs {
+								if _, isLit := ast.Unparen(as.Rhs[i]).(*ast.FuncLit); isLit {
+									env.assign(as.Lhs[i], as.Rhs[i])
+								}
+							}
+						}
+					}
 					env.run(loopBody.List)
 					var enc *ast.CallExpr
 					for _, call := range core.CallsIn(ginfo, loopBody, "morton.MustToZ", "morton.ToZ") {
@@ -1498,21 +1508,15 @@ func r04DecisionTable(c *core.Ctx) {
 	// names of the four classification variables, from their defining calls
 	vars := map[string]string{} // role -> variable name
 	boolDefs := map[string]ast.Expr{}
-	ast.Inspect(builder.Decl.Body, func(n ast.Node) bool {
-		as, ok := n.(*ast.AssignStmt)
-		if !ok || len(as.Lhs) != 1 || len(as.Rhs) != 1 {
-			return true
-		}
-		lhs, _ := as.Lhs[0].(*ast.Ident)
-		if lhs == nil {
-			return true
-		}
-		call, ok := as.Rhs[0].(*ast.CallExpr)
+	classify := func(name string, rhs ast.Expr) {
+		call, ok := ast.Unparen(rhs).(*ast.CallExpr)
 		if !ok || len(call.Args) < 1 {
-			if bt, isB := info.TypeOf(as.Rhs[0]).Underlying().(*types.Basic); isB && bt.Info()&types.IsBoolean != 0 {
-				boolDefs[lhs.Name] = as.Rhs[0]
+			if t := info.TypeOf(rhs); t != nil {
+				if bt, isB := t.Underlying().(*types.Basic); isB && bt.Info()&types.IsBoolean != 0 {
+					boolDefs[name] = rhs
+				}
 			}
-			return true
+			return
 		}
 		pt := canon(call.Args[0]) // line[0] / line[1]
 		k := ""
@@ -1522,13 +1526,46 @@ func r04DecisionTable(c *core.Ctx) {
 			k = "2"
 		}
 		if k == "" {
-			return true
+			return
 		}
 		switch {
 		case core.IsCallTo(info, call, "pointindex.getInfiniteQuadrant"):
-			vars["quad"+k] = lhs.Name
+			vars["quad"+k] = name
 		case core.IsCallTo(info, call, "pointindex.containsPoint"):
-			vars["inside"+k] = lhs.Name
+			vars["inside"+k] = name
+		}
+	}
+	ast.Inspect(builder.Decl.Body, func(n ast.Node) bool {
+		as, ok := n.(*ast.AssignStmt)
+		if !ok || len(as.Lhs) != len(as.Rhs) {
+			return true
+		}
+		for i := range as.Lhs {
+			var name string
+			switch l := ast.Unparen(as.Lhs[i]).(type) {
+			case *ast.Ident:
+				name = l.Name
+			case *ast.SelectorExpr:
+				name = canon(l)
+			default:
+				continue
+			}
+			// the flags of one end point kept together in a struct: pt1 := position{quadrant: …, inside: …}
+			if cl, isLit := ast.Unparen(as.Rhs[i]).(*ast.CompositeLit); isLit {
+				if st, isStruct := info.TypeOf(cl).Underlying().(*types.Struct); isStruct {
+					for j, el := range cl.Elts {
+						if kv, isKV := el.(*ast.KeyValueExpr); isKV {
+							if key, isID := kv.Key.(*ast.Ident); isID {
+								classify(name+"."+key.Name, kv.Value)
+							}
+						} else if j < st.NumFields() {
+							classify(name+"."+st.Field(j).Name(), el)
+						}
+					}
+				}
+				continue
+			}
+			classify(name, as.Rhs[i])
 		}
 		return true
 	})
@@ -1556,6 +1593,16 @@ func r04DecisionTable(c *core.Ctx) {
 				return a2, true
 			}
 			if def, has := boolDefs[x.Name]; has {
+				return evalBool(def, a1, a2, depth+1)
+			}
+		case *ast.SelectorExpr:
+			switch canon(x) {
+			case in1:
+				return a1, true
+			case in2:
+				return a2, true
+			}
+			if def, has := boolDefs[canon(x)]; has {
 				return evalBool(def, a1, a2, depth+1)
 			}
 		case *ast.UnaryExpr:
